@@ -12,7 +12,7 @@ use std::rc::Rc;
 
 pub const META: Meta = Meta {
     level: "model_checking",
-    rule: "all (dialer list of 1-2, listener list of 0-2 names over {/a,/b,/c}, V1|V1Lazy, application writes plain|vectored) configurations; per pair every execution with <= bound deviations (1-byte reads, 1-byte writes, injected Pending on read/write/flush, non-round-robin task choice) of dialer_select_proto || listener_select_proto over an in-memory pipe followed by an application phase (3-byte tag each way, flush, read, close). Non-trivial = executions with >=1 deviation, distinct by (config, choice sequence).",
+    rule: "all (dialer list of 1-2, listener list of 0-2 names over {/a,/b,/c} and (deviation bound 1 quick / 2 thorough) over the related names {/a,/A,/ab}, V1|V1Lazy, application writes plain|vectored) configurations; per pair every execution with <= bound deviations (1-byte reads, 1-byte writes, injected Pending on read/write/flush, non-round-robin task choice) of dialer_select_proto || listener_select_proto over an in-memory pipe followed by an application phase (3-byte tag each way, flush, read, close). Non-trivial = executions with >=1 deviation, distinct by (config, choice sequence).",
     explanation: "E1 stateless DFS with deviation bound (CHESS-style); every execution runs the real futures; oracle: both Ok on the first dialer protocol the listener has or both Err(Failed); lazy dialer learns failure on its first read; tags arrive intact.",
     assumptions: &["poll-granularity interleaving on one thread", "names contain no newline (hostile names are C15)"],
 };
@@ -167,9 +167,13 @@ fn one(dl: &[&'static str], ll: &[&'static str], ver: u8, vectored: bool, pcfg: 
     Ok(())
 }
 
-const NAMES: [&str; 3] = ["/a", "/b", "/c"];
+/// the first three names are unrelated; the last two are *related* to "/a" (same up to ASCII
+/// case, proper extension) and must nevertheless be treated as different protocols
+const NAMES: [&str; 5] = ["/a", "/b", "/c", "/A", "/ab"];
+const UNRELATED: [usize; 3] = [0, 1, 2];
+const RELATED: [usize; 3] = [0, 3, 4];
 
-fn lists(min: usize, max: usize) -> Vec<Vec<&'static str>> {
+fn lists(alpha: &[usize; 3], min: usize, max: usize) -> Vec<Vec<&'static str>> {
     let mut v = Vec::new();
     for len in min..=max {
         mc::enumerate::sequences(3, len, |idx| {
@@ -177,7 +181,7 @@ fn lists(min: usize, max: usize) -> Vec<Vec<&'static str>> {
             if len == 2 && idx[0] == idx[1] {
                 return;
             }
-            v.push(idx.iter().map(|&i| NAMES[i]).collect());
+            v.push(idx.iter().map(|&i| NAMES[alpha[i]]).collect());
         });
     }
     v
@@ -206,22 +210,28 @@ pub fn run(ctx: &Ctx) -> Outcome {
     }
     let bound = ctx.tier.pick(2, 4);
     let mut cfgs = Vec::new();
-    for d in lists(1, 2) {
-        for l in lists(0, 2) {
-            for v in 0..2u8 {
-                for w in 0..2u8 {
-                    cfgs.push(json!({"d": d, "l": l, "v": v, "w": w}));
+    for (alpha, b) in [(&UNRELATED, bound), (&RELATED, ctx.tier.pick(1, 2))] {
+        for d in lists(alpha, 1, 2) {
+            for l in lists(alpha, 0, 2) {
+                // lists over {/a} only are already in the first group
+                if b != bound && d.iter().chain(l.iter()).all(|n| *n == "/a") {
+                    continue;
+                }
+                for v in 0..2u8 {
+                    for w in 0..2u8 {
+                        cfgs.push((json!({"d": d, "l": l, "v": v, "w": w}), b));
+                    }
                 }
             }
         }
     }
     mc::workers(ctx, 16, |ctx| {
         let mut out = Outcome::default();
-        for (i, cfg) in cfgs.iter().enumerate() {
+        for (i, (cfg, bound)) in cfgs.iter().enumerate() {
             if !ctx.mine(i as u64) {
                 continue;
             }
-            let (st, viol) = choice::explore(bound, 0, body(cfg));
+            let (st, viol) = choice::explore(*bound, 0, body(cfg));
             out.add_explore(&st);
             out.count("configs", 1);
             out.count("distinct_observations", st.distinct_obs);
